@@ -8,7 +8,7 @@
    as full statements and are decided per case by the verified-model correspondence
    plus brute-force references in the check (C05 evidence: "partial"). *)
 From Coq Require Import ZArith List Arith.
-From VL Require Import Prelude.PyDict Model.GetNBest Model.Condorcet Proofs.Condorcet_proofs.
+From VL Require Import Prelude.PyDict Model.GetNBest Model.Condorcet Proofs.Condorcet_proofs Proofs.CopelandMono_proofs Proofs.SmithCopeland_proofs.
 Import ListNotations.
 Open Scope Z_scope.
 
@@ -21,6 +21,15 @@ Proof. intros v so c Hnd Hnn. exact (copeland_elects_cw v Hnd Hnn so c). Qed.
 Theorem C05_copeland_score : forall (v : pvotes) x,
   dget_or (copeland_scores (pairwise_wins v false)) x 0 = nwins v x - nlosses v x.
 Proof. exact copeland_scores_get. Qed.
+
+(* Smith-efficiency of Copeland: a sole winner by Copeland scores lies in the Smith set (the set SmithSet computes,
+   proved in C06 to be the smallest dominating set) *)
+Theorem C05_smith_copeland : forall (v : pvotes) (w : C),
+  NoDup (map fst v) -> (forall p n, In (p, n) v -> 0 <= n) -> (2 <= length (candidates v))%nat ->
+  copeland false v 1 = [Cand w] -> In w (smith_schwartz v true).
+Proof.
+  intros v w Hnd Hnn H2 H. rewrite copeland_raw_is_first_order in H. exact (copeland_in_smith v w Hnd Hnn H2 H).
+Qed.
 
 Definition well_formed (v : pvotes) : Prop :=
   NoDup (map fst v) /\ (forall p n, In (p, n) v -> 0 <= n) /\ (2 <= length (candidates v))%nat.
@@ -48,3 +57,4 @@ Proof. vm_compute. reflexivity. Qed.
 
 Print Assumptions C05_cw_copeland.
 Print Assumptions C05_copeland_score.
+Print Assumptions C05_smith_copeland.
